@@ -292,6 +292,29 @@ func stressors(full bool) []VerifyCase {
 			}
 		}
 	}
+	// bodies that are too long as written and short enough once the optimizer
+	// has folded them: whether such a body is refused or accepted, what is
+	// accepted is sound (the jumps behind the padding land where they should)
+	foldPad := func(n int) string { return strings.Repeat("p = 1 + 1;\n", n) }
+	if a, b := measure(foldPad(100)+"return p;", ""), measure(foldPad(200)+"return p;", ""); a > 0 && b > a {
+		per := (b - a) / 100
+		n0 := 65536 / per
+		ds := []int{-3, 0, 1, 2, 4, 5, 40}
+		if full {
+			ds = []int{-3, -2, -1, 0, 1, 2, 3, 4, 5, 6, 7, 9, 13, 40, 200, 1000}
+		}
+		for ji, j := range jumping {
+			if ji >= 5 {
+				break
+			}
+			for _, d := range ds {
+				add("foldable-padding", foldPad(n0+d)+j, "p = 1 + 1;\n"+j)
+				if d >= 0 && d <= 5 {
+					add("foldable-padding", "function big() {\n"+foldPad(n0+d)+j+"\n}\nreturn big();", "function big() {\np = 1 + 1;\n"+j+"\n}\nreturn big();")
+				}
+			}
+		}
+	}
 	// many distinct constants
 	counts := []int{255, 256, 257, 1000}
 	if full {
